@@ -34,6 +34,11 @@ func serializeRecord(version string, fields [][2]string, body []byte, le string)
 
 // fullFields completes a generated record spec with the mandatory fields.
 func fullFields(r *rand.Rand, g genRecord, declareDigest bool) [][2]string {
+	return fullFieldsOdd(r, g, declareDigest, true)
+}
+
+// fullFieldsOdd: odd=false leaves out the unsupported digest spellings (for records that must be clean)
+func fullFieldsOdd(r *rand.Rand, g genRecord, declareDigest bool, odd bool) [][2]string {
 	f := [][2]string{{"WARC-Type", typeNames[g.rt]}, {"WARC-Record-ID", fmt.Sprintf("<urn:uuid:%08x-0000-0000-0000-000000000000>", r.Uint32())}}
 	f = append(f, g.fields...)
 	has := map[string]bool{}
@@ -45,6 +50,13 @@ func fullFields(r *rand.Rand, g genRecord, declareDigest bool) [][2]string {
 	}
 	if declareDigest && !has["warc-block-digest"] {
 		f = append(f, [2]string{"WARC-Block-Digest", refDigest(pick(r, algs), 1+r.Intn(3), g.body)})
+	}
+	// declared digests in spellings the library does not support (unknown algorithm, no colon, empty)
+	if odd && !has["warc-payload-digest"] && r.Intn(14) == 0 {
+		f = append(f, [2]string{"WARC-Payload-Digest", pick(r, []string{"crc32:deadbeef", "sha3:00", "nocolon", "md5:", ":"})})
+	}
+	if odd && !declareDigest && !has["warc-block-digest"] && r.Intn(20) == 0 {
+		f = append(f, [2]string{"WARC-Block-Digest", pick(r, []string{"crc32:deadbeef", "whirlpool:00", "nocolon"})})
 	}
 	return f
 }
